@@ -9,7 +9,7 @@ for f in sorted(glob.glob('/verif/seeded/*/meta.json')):
     m = json.load(open(f))
     name = os.path.basename(os.path.dirname(f))
     notes = m.get('needs_to_manifest', '').strip().split('\n')
-    first = next((ln.strip('# ').strip() for ln in notes if ln.strip()), '')
+    first = next((ln.strip('# *`').strip() for ln in notes if ln.strip() and not ln.strip('# *`').lower().startswith('breaks')), '')
     c = m['confirmed']
     ok = c['demo_exit_on_unmodified_tree'] == 0 and c['demo_exit_with_patch'] == 1 and 'passed' in c['repo_suite_with_patch'] \
         and 'failed' not in c['repo_suite_with_patch']
